@@ -44,7 +44,7 @@ Lemma build_slice_registers sp byip svc sid np ip pid cond es r :
 Proof. intros Hn. cbn [build_slice]. rewrite Hn. reflexivity. Qed.
 
 Lemma is_perm_refl l : is_perm l l = true.
-Proof. induction l as [|x l IH]; [reflexivity|]. cbn [is_perm smem sdel]. rewrite N.eqb_refl. cbn. exact IH. Qed.
+Proof. induction l as [|x l IH]; [reflexivity|]. cbn [is_perm smem rem1]. rewrite N.eqb_refl. cbn. exact IH. Qed.
 
 (* addPod: a pod that becomes eligible under an address with waiting slices re-queues exactly those slices *)
 Lemma add_pod_requeues s p ip id l :
@@ -166,3 +166,33 @@ Lemma witnesses_good_order :
   converged [WSv 0 (Some (Svc false false [0])); H []; WSl 0 (Some (Slice 0 1 [Ep 1 (Some 0) 0])); H [];
              WPod 0 (Some (Pod 1 true false 0 1)); H [0]; H []] = true.
 Proof. vm_compute. repeat split; reflexivity. Qed.
+
+(* harness directed scenario 24: one pod update changes the IP and loses readiness *)
+Definition wit_ip_change : list op :=
+  [WPod 0 (Some (Pod 1 true false 0 1)); H []; WPod 0 (Some (Pod 2 false false 0 1)); H []].
+(* harness directed scenario 23: label edit on a not-ready pod that the service selects *)
+Definition wit_label_unready : list op :=
+  [WSv 1 (Some (Svc false false [0])); WPod 0 (Some (Pod 1 false false 0 1)); WSl 0 (Some (Slice 1 1 [Ep 1 (Some 0) 1]));
+   H []; H []; H []; WPod 0 (Some (Pod 1 false false 1 1)); H []].
+(* a referenced pod is deleted and no slice event follows *)
+Definition wit_pod_deleted : list op :=
+  [WSv 0 (Some (Svc false false [0])); WPod 0 (Some (Pod 1 true false 0 1)); WSl 0 (Some (Slice 0 1 [Ep 1 (Some 0) 0]));
+   H []; H []; H []; WPod 0 None; H []].
+
+Lemma not_confluent_more :
+  converged wit_ip_change = false /\ converged wit_label_unready = false /\ converged wit_pod_deleted = false /\
+  q (run wit_ip_change st0) = [] /\ q (run wit_label_unready st0) = [] /\ q (run wit_pod_deleted st0) = [].
+Proof. vm_compute. repeat split; reflexivity. Qed.
+
+(* the PodCache symptom of wit_ip_change: the old address still lists the pod *)
+Lemma ip_change_leaves_entry :
+  byip (run wit_ip_change st0) = [(1, [0])] /\ ipby (run wit_ip_change st0) = [(0, 1)] /\
+  d_byip (sp (run wit_ip_change st0)) = [].
+Proof. vm_compute. repeat split; reflexivity. Qed.
+
+(* endpointSliceCache.get keeps the first endpoint per (address, port) in slice iteration order, which is Go
+   map order: the published endpoint of a duplicated key depends on it *)
+Lemma duplicate_winner_depends_on_order :
+  let a := [E 1 0 1 1 1] in let b := [E 1 0 1 1 4] in
+  dedup [] (a ++ b) <> dedup [] (b ++ a) /\ conflict (a ++ b) = true.
+Proof. vm_compute. split; [discriminate|reflexivity]. Qed.
